@@ -68,11 +68,13 @@ theorem C10_not_early_conc {thr : List Thr} (h0 : InitThreads thr) {s : Sys} (r 
 /-- C12 (concurrent clause): among any number of concurrent `Close` calls, cancellation watchers and
 provider closes, exactly one passes the CAS (`casWins = 1` iff the flag is set, at most one thread
 is ever inside the body); once the `closed` channel is signalled nobody is inside the body and all
-three tables are released — and a loser can only return then, because `<-s.closed` is not enabled
-earlier; the loser's two actions change nothing. -/
+three tables are released and the disposal outcome `closeErr` has been written — and a loser can only
+return (and read `closeErr`) then, because `<-s.closed` is not enabled earlier; the loser's two
+actions change nothing. -/
 theorem C12_idempotent_conc {thr : List Thr} (h0 : InitThreads thr) {s : Sys} (r : Reach (init thr) s) :
     s.sh.casWins = b2n s.sh.disposed ∧ s.sh.casWins ≤ 1 ∧ tot winS s.thr ≤ 1 ∧
-    (s.sh.closedSig = true → tot winS s.thr = 0 ∧ s.sh.cache = none ∧ s.sh.disposables = none ∧ s.sh.children = none) ∧
+    (s.sh.closedSig = true → tot winS s.thr = 0 ∧ s.sh.cache = none ∧ s.sh.disposables = none ∧ s.sh.children = none ∧
+        s.sh.errSet = true) ∧
     (∀ c k, s.sh.disposed = true → act c s.sh (.cCas k) = some (.cWait k, s.sh, [])) ∧
     (∀ c k pc' sh' sp, act c s.sh (.cWait k) = some (pc', sh', sp) →
         s.sh.closedSig = true ∧ sh' = s.sh ∧ pc' = resume k ∧ sp = []) := by
@@ -85,7 +87,7 @@ theorem C12_idempotent_conc {thr : List Thr} (h0 : InitThreads thr) {s : Sys} (r
     have := inv.gate.sig hs
     rw [hs] at hw
     simp at hw
-    exact ⟨by omega, this.2.2, this.2.1, this.1⟩
+    exact ⟨by omega, this.2.2.1, this.2.1, this.1, this.2.2.2⟩
   · intro c k hd; simp [act, hd]
   · intro c k pc' sh' sp h
     simp only [act] at h
